@@ -108,19 +108,44 @@ def future_reads(tr, world):
     return out
 
 
-def twin(cfg, rw, acc):
-    """Run the same configuration in world A and in world B (= A rewritten after day T); compare up to T."""
+def pre_session_cfg(cfg):
+    """An earlier use of the same data source: the same strategy started a few business days later, no burn-in."""
+    pre = json.loads(json.dumps(cfg))
+    d0 = dt.date.fromisoformat(cfg['start'][:10])
+    d1 = dt.date.fromisoformat(cfg['end'][:10])
+    shift = max(3, (d1 - d0).days // 3)
+    pre['start'] = (d0 + dt.timedelta(days=shift)).isoformat() + cfg['start'][10:]
+    pre['burn_in'] = None
+    if pre['universe']['kind'] == 'dynamic':
+        pre['universe']['dates'] = {a: (pre['start'] if d == cfg['start'] else d) for a, d in pre['universe']['dates'].items()}
+    return pre
+
+
+def twin(cfg, rw, acc, pre=False):
+    """
+    Run the same configuration in world A and in world B (= A rewritten after day T); compare up to T.
+    pre: in each world the data source first serves another session (started later), then the compared one.
+    """
     T = rw['T']
     wa = sesswl.make_world(cfg)
     try:
-        ta = sesswl.run_session(cfg, wa)
+        shared = None
+        if pre:
+            shared = {}
+            sesswl.run_session(pre_session_cfg(cfg), wa, shared=shared)
+        ta = sesswl.run_session(cfg, wa, shared=shared)
         ra = results(ta)
         fut = future_reads(ta, wa)
     finally:
         wa.close()
     wb = sesswl.make_world(cfg, rewrite_spec=rw)
     try:
-        tb = sesswl.run_session(cfg, wb)
+        shared = None
+        if pre:
+            shared = {}
+            sesswl.run_session(pre_session_cfg(cfg), wb, shared=shared)
+            acc.count('C07:twins_on_a_data_source_that_served_an_earlier_session')
+        tb = sesswl.run_session(cfg, wb, shared=shared)
         rb = results(tb)
     finally:
         wb.close()
@@ -153,7 +178,7 @@ def twin(cfg, rw, acc):
 def run_case(case, acc):
     cfg, rw = case['cfg'], case['rw']
     try:
-        ta, fut, diverged, A = twin(cfg, rw, acc)
+        ta, fut, diverged, A = twin(cfg, rw, acc, pre=case.get('pre', False))
         # directed twins for reads from the future (harmless unless they change results)
         for f in fut[:3]:
             sym = f['asset'].replace('EQ:', '')
@@ -175,7 +200,8 @@ def gen_case(rng, max_days):
     d1 = dt.date.fromisoformat(cfg['end'][:10])
     n = (d1 - d0).days
     T = d0 + dt.timedelta(days=rng.randint(-2, n))
-    return {'cfg': cfg, 'rw': {'T': T.isoformat(), 'kind': rng.choice(REWRITES), 'seed': rng.randint(0, 10 ** 6)}}
+    return {'cfg': cfg, 'rw': {'T': T.isoformat(), 'kind': rng.choice(REWRITES), 'seed': rng.randint(0, 10 ** 6)},
+            'pre': rng.random() < 0.4}
 
 
 def shard_c07(spec, acc):
@@ -210,8 +236,8 @@ C18_SYMS = ['XLB', 'XLC', 'QQQ', 'XLRE', 'SPY', 'AGG', 'GLD', 'IWM']
 
 def gen_c18_cfg(rng, max_days=60):
     n = rng.randint(5, 8)
-    cfg = sesswl.gen_cfg(rng, alpha_kinds=('topn_mom', 'topn_mom', 'single', 'mom_sign', 'inv_vol', 'fixed'),
-                         universe_kinds=('dynamic',), max_days=max_days, n_assets=n,
+    cfg = sesswl.gen_cfg(rng, alpha_kinds=('topn_mom', 'topn_mom', 'single', 'mom_sign', 'inv_vol', 'fixed', 'fixed'),
+                         universe_kinds=('dynamic',), max_days=max_days, n_assets=n, full_data=rng.random() < 0.6,
                          rebalances=('daily', 'daily', 'weekly', 'end_of_month'))
     # rename assets so that their hashes differ between interpreters in an interesting way
     syms = cfg['market']['assets']
@@ -240,6 +266,11 @@ def gen_c18_cfg(rng, max_days=60):
         cfg['burn_in'] = None
     if cfg['alpha']['kind'] == 'fixed':
         cfg['alpha']['weights'] = {'EQ:' + ren[a[3:]]: w for a, w in cfg['alpha']['weights'].items()}
+        if rng.random() < 0.6:
+            # weights for the whole universe, gross exposure different from the leverage
+            cfg['alpha']['weights'] = {a: round(rng.uniform(0.2, 1.5), 2) * (1 if cfg['long_only'] or rng.random() < 0.6 else -1)
+                                       for a in sorted(dates)}
+            cfg['universe']['dates'] = {a: cfg['start'] for a in dates}
     return cfg
 
 
@@ -256,8 +287,8 @@ def one_digest(cfg, shared=None, world=None):
             world.close()
 
 
-def storm(rng, source, world, cfg, n=300):
-    """Fill the memoised price lookups with a shuffled pre-query storm."""
+def storm(rng, source, world, cfg, n=300, handler=None):
+    """Fill the memoised price lookups with a shuffled pre-query storm (also through the shared handler, if any)."""
     start = pd.Timestamp(cfg['start'])
     assets = list(world.ev)
     qs = []
@@ -270,6 +301,13 @@ def storm(rng, source, world, cfg, n=300):
             getattr(source, side)(t, a)
         except Exception:
             pass
+    if handler is not None:
+        for t, a, side in qs[:150]:
+            try:
+                handler.get_asset_latest_bid_ask_price(t, a)
+                handler.get_asset_latest_mid_price(t, a)
+            except Exception:
+                pass
 
 
 def subprocess_digest(cfg, hashseed, scratch):
@@ -312,13 +350,19 @@ def run_c18_case(case, acc):
         # (b) data source that already served another session and a storm of shuffled queries
         world = sesswl.make_world(cfg)
         try:
-            shared = {}
+            shared = {'share_handler': rng.random() < 0.7}
             other = json.loads(json.dumps(cfg))
             other['rebalance'] = 'daily' if cfg['rebalance'] != 'daily' else 'weekly'
             other.setdefault('weekday', 'WED')
             other['burn_in'] = None
+            if rng.random() < 0.5:
+                # the earlier session tracks every symbol from an earlier start (also before a late asset's first bar)
+                d0 = dt.date.fromisoformat(cfg['start'][:10]) - dt.timedelta(days=9)
+                other['start'] = d0.isoformat() + cfg['start'][10:]
+                other['universe'] = {'kind': 'static', 'assets': ['EQ:' + s_ for s_ in cfg['market']['assets']]}
+                other['alpha'] = {'kind': 'sma_trend', 'fast': 2, 'slow': 4}
             sesswl.run_session(other, world, shared=shared)
-            storm(rng, shared['source'], world, cfg)
+            storm(rng, shared['source'], world, cfg, handler=shared.get('handler'))
             d3, r3, _ = one_digest(cfg, shared=shared, world=world)
             acc.count('C18:runs', 2)
             info = getattr(shared['source'].get_bid, 'cache_info', None)
@@ -348,6 +392,23 @@ def run_c18_case(case, acc):
             acc.count('C18:reused_universe_pairs')
         finally:
             world.close()
+        # (f) the same alpha model object - and with it the caller's weights dict - serves a first run and then this one
+        if cfg['alpha']['kind'] == 'fixed':
+            world = sesswl.make_world(cfg)
+            try:
+                shared = {'share_alpha': True}
+                sesswl.run_session(cfg, world, shared=shared)
+                shared.pop('source', None)
+                d6, r6, _ = one_digest(cfg, shared=shared, world=world)
+                acc.count('C18:runs', 2)
+                if d1 != d6:
+                    k, i, x, y = first_difference(r1, r6)
+                    raise Violation('C18', 'reused-alpha-model/%s' % k,
+                                    'a run whose alpha model object already served an earlier run differs at %s #%d: %s vs %s'
+                                    % (k, i, x, y), {'mode': 'reused-alpha-model'})
+                acc.count('C18:reused_alpha_model_pairs')
+            finally:
+                world.close()
         # (c) fresh interpreters with other string-hash seeds
         scratch = tempfile.mkdtemp(prefix='qsmon-c18-')
         try:
